@@ -13,13 +13,17 @@ Open Scope R_scope.
 Definition n4 : nat -> R := coefR nr4_Q.
 Ltac expose :=
   cbv [sat_val tsat_val theta_of qA qB qC disc1 den1 beta_of qE qF qG disc2 den2 dd_of disc3 tk_of
-       n4 coefR nth nr4_Q pstar4_Q tc_k_Q tcritical_Q pcritical_Q p_611_213_Q];
+       n4 coefR nth nr4_Q pstar4_Q tc_k_Q tcritical_Q pcritical_Q p_611_213_Q tsat_upper_Q tsat_nodes];
   unfold Q2R; cbn [Qnum Qden].
 
 (** ** kelvin temperature range of the saturation line *)
 Lemma tk_range t : 0 <= t <= Q2R tcritical_Q ->
   27314/100 <= t + Q2R tc_k_Q <= 6470961/10000.
 Proof. intros H. revert H. expose. intros H. lra. Qed.
+
+(** tsat accepts pressures at least up to pcritical (exactly up to it in the source as it stands) *)
+Lemma upper_ge_pcritical : Q2R pcritical_Q <= Q2R tsat_upper_Q.
+Proof. expose. lra. Qed.
 
 (** ** forward direction: hypotheses of [tsat_of_sat_algebra] *)
 Lemma F_n9 tk : 27314/100 <= tk <= 6470961/10000 -> tk - n4 9 <> 0.
@@ -175,7 +179,7 @@ Qed.
 (** on the whole closed interval 0..tcritical the only way tsat(sat(t)) can differ from t is tsat's
     own range test rejecting sat's value *)
 Theorem tsat_sat_inverse_guarded_proof (t p : R) :
-  runsR sat_traced [t] n4 (RRet [p]) -> Q2R p_611_213_Q <= p <= Q2R pcritical_Q ->
+  runsR sat_traced [t] n4 (RRet [p]) -> Q2R p_611_213_Q <= p <= Q2R tsat_upper_Q ->
   runsR tsat_traced [p] n4 (RRet [t]).
 Proof.
   intros Hs Hp. apply sat_traced_is in Hs as [[Ht E]|[_ E]]; [|discriminate E].
@@ -197,20 +201,8 @@ Proof.
   assert (Hk : 27316/100 - 1/10000000 <= t + Q2R tc_k_Q <= 64709599999/100000000) by (revert H; expose; intros H; lra).
   pose proof (sat_ge_lower (t + Q2R tc_k_Q) ltac:(lra)) as L.
   pose proof (sat_le_pcritical (t + Q2R tc_k_Q) ltac:(lra)) as U.
-  set (v := sat_val n4 (t + Q2R tc_k_Q)) in *. clearbody v. revert L U. expose. intros L U. lra.
-Qed.
-
-(** at the upper end point itself the inverse FAILS over R too: sat(tcritical) > pcritical *)
-Theorem tsat_upper_endpoint_fails_over_R_proof :
-  exists p, runsR sat_traced [Q2R tcritical_Q] n4 (RRet [p]) /\ Q2R pcritical_Q < p /\ runsR tsat_traced [p] n4 RNone.
-Proof.
-  exists (sat_val n4 (Q2R tcritical_Q + Q2R tc_k_Q)).
-  pose proof sat_tcritical_gt_pcritical as G.
-  assert (Hc : 0 <= Q2R tcritical_Q) by (expose; lra).
-  split; [apply sat_traced_is; left; split; [lra|reflexivity]|].
-  assert (Gp : Q2R pcritical_Q < sat_val n4 (Q2R tcritical_Q + Q2R tc_k_Q)).
-  { set (v := sat_val n4 _) in *. clearbody v. expose. lra. }
-  split; [exact Gp|]. apply tsat_traced_is. right. split; [lra|reflexivity].
+  pose proof upper_ge_pcritical as G.
+  set (v := sat_val n4 (t + Q2R tc_k_Q)) in *. clearbody v. revert L U G. expose. intros L U G. lra.
 Qed.
 
 (** the other composition holds on the whole closed pressure interval 611.213 Pa .. pcritical *)
@@ -218,7 +210,7 @@ Theorem sat_tsat_inverse_proof (p : R) : Q2R p_611_213_Q <= p <= Q2R pcritical_Q
   exists t, runsR tsat_traced [p] n4 (RRet [t]) /\ runsR sat_traced [t] n4 (RRet [p]).
 Proof.
   intros H. exists (tsat_val n4 p). split.
-  - apply tsat_traced_is. left. split; [exact H|reflexivity].
+  - apply tsat_traced_is. left. split; [pose proof upper_ge_pcritical; lra|reflexivity].
   - destruct (sat_val_of_tsat_val p H) as [E R]. apply sat_traced_is. left. split; [exact R|]. rewrite E. reflexivity.
 Qed.
 
